@@ -238,6 +238,28 @@ def map_kernels(P, R):
     BL = 'spatialpandas.geometry.baselist'
     kernels = [(int(g.name[-1]) if g.name[-1].isdigit() else None, g) for g in P.mods[BL].funcs.values()
                if g.name.startswith('_geometry_map') and P.is_jit(g) and len(g.params) >= 5]
+    # ... and whatever the public length / area methods actually call with (fn, result, values, offsets, missing), jitted or not
+    seen_k = {g for _, g in kernels}
+    for ci in P.classes.values():
+        if not ci.mod.name.startswith(geom.G):
+            continue
+        for g in ci.mod.funcs.values():
+            if g.cls is not ci or g.name not in ('length', 'area'):
+                continue
+            work, seen = [g], set()
+            while work:
+                h = work.pop()
+                if h.key in seen:
+                    continue
+                seen.add(h.key)
+                for c in astq.own_calls(h):
+                    r = P.resolve_call(h, c)
+                    if r and r[0] == 'func':
+                        if r[1].mod.name == BL and r[1].cls is None and len(r[1].params) >= 5 and r[1] not in seen_k and len(c.args) >= 5:
+                            seen_k.add(r[1])
+                            kernels.append((int(r[1].name[-1]) if r[1].name[-1].isdigit() else None, r[1]))
+                        elif r[1].cls is not None and r[1].mod.name.startswith(geom.G) and not r[1].name.startswith('buffer_') and r[1].name != '__init__':
+                            work.append(r[1])
     if not kernels:
         raise AnalysisError(f'function {BL}:_geometry_map_nested* not found (anchor vanished)')
     map_kernel_coverage(P, R, kernels)
